@@ -290,9 +290,11 @@ def c18(tier):
     q = tier == "quick"
     runs = []
     for e in range(E):
-        runs.append(dict(harness="verifHarness_C18", args=[1 if q else 2, e, (e + 3) % E]))
-    for e in (1, 3):
-        runs.append(dict(harness="verifHarness_C18", args=[2 if q else 3, e, (e + 3) % E]))
+        runs.append(dict(harness="verifHarness_C18", args=[1, e, (e + 3) % E]))
+    # two-byte x: two entry points in the quick tier, four in the thorough tier (a complete
+    # thorough run with two bytes on all nine and three bytes on two did not finish in 3 hours)
+    for e in (1, 3) if q else (1, 3, 4, 5):
+        runs.append(dict(harness="verifHarness_C18", args=[2, e, (e + 3) % E]))
     runs += [dict(harness="verifHarness_C18_lit", args=[k, QUERY]) for k in ((0, 1) if q else (0, 1, 2))]
     runs += fam(18, tier, cut=False, budget=1 if q else 2)
     return runs
@@ -400,7 +402,7 @@ PROPS = {
                 outside="trees deeper than the bounds that are not family instances"),
     "C18": dict(level="model_checking", runs=c18, reach=["C18/ok"],
                 bounds={"quick": "x: all byte strings of length <= 1 on every entry point (<= 2 for ParseExpr and ParseStatements), y: one of 7 fixed inputs (valid, invalid, lexically broken, empty, with \\u escapes), each entry point paired with another one; literals exercising every escape kind; plus every sentence of the 23 families (<= 1 deviation) with a fixed erroneous statement list in between; all calls go through the package-level helpers (ParseStatement(filepath, s) ...); the node sets of any two results are disjoint",
-                        "thorough": "x of length <= 3; families with <= 2 deviations"},
+                        "thorough": "x of length <= 2 on four entry points (ParseStatements, ParseExpr, ParseType, ParseDDL), <= 1 on the others; literal bodies <= 2; families with <= 2 deviations"},
                 outside="interleavings of goroutines are not explored (DESIGN.md section 8): race-freedom follows from the absence of writes to shared state by argument, not by schedule exploration"),
     "C19": dict(level="translation_validation", runs=cutpanics(c19), reach=["C19/checked", "C19/parsed", "C17/ok"],
                 programs=lambda outs: 264,
